@@ -177,21 +177,21 @@ theorem C19_sticky_backend_fixed {s : State} (h : Reachable s) (op : Op) (id : N
     · left; exact ⟨f, by simp [e, hf], rfl, rfl, fun b hb => hb, by simp [e]⟩
 
 /-- flow-key equality of two sources filed under possibly different affinity
-    modes is affinity-key equality, provided neither source port is 0 -/
-theorem flowKey_eq_affKey {a b : Addr} {wa wb : Bool} (ha : a.port ≠ 0) (hb : b.port ≠ 0)
+    modes is affinity-key equality (the `ip_only` flag keeps the modes apart) -/
+theorem flowKey_eq_affKey {a b : Addr} {wa wb : Bool}
     (h : flowKey a wa = flowKey b wb) : wa = wb ∧ affKey a wa = affKey b wb := by
   rcases a with ⟨av, aip, ap⟩
   rcases b with ⟨bv, bip, bp⟩
   cases wa <;> cases wb <;> simp_all [flowKey, affKey]
 
-/-- **Partial** (excludes UDP source port 0): a client datagram is only ever
-    forwarded on a flow that was admitted under the *same* affinity mode for
-    the *same* affinity key (source ip, plus source port in 4-tuple mode).
-    The excluded point is `C19_sticky_affinity_counterexample`. -/
-theorem C19_sticky_affinity_partial {s : State} (h : Reachable s) (src : Addr) (p : Bytes) (now id : Nat)
+/-- A client datagram is only ever forwarded on a flow that was admitted under
+    the *same* affinity mode for the *same* affinity key (source ip, plus source
+    port in 4-tuple mode) — for every source, port 0 included (full statement
+    since the `FlowKey.ip_only` repair; before it this needed `port ≠ 0`). -/
+theorem C19_sticky_affinity {s : State} (h : Reachable s) (src : Addr) (p : Bytes) (now id : Nat)
     (dst : Addr) (pl : Bytes) (f : Flow)
     (hout : Out.sendToBackend id dst pl ∈ (step s (.client src p now)).2)
-    (hf : getFlow s id = some f) (hsrc : src.port ≠ 0) (hcl : f.client.port ≠ 0) :
+    (hf : getFlow s id = some f) :
     f.cfg.withPort = s.cluster.withPort ∧
       affKey f.client f.cfg.withPort = affKey src s.cluster.withPort := by
   rcases C19_sticky h _ id dst pl hout with ⟨f', src', p', now', hop, hf', _, hk⟩ | ⟨_, _, _, hop, _⟩
@@ -200,8 +200,7 @@ theorem C19_sticky_affinity_partial {s : State} (h : Reachable s) (src : Addr) (
     obtain ⟨g, hg, hkey⟩ := (reachable_inv h).str.tableSound _ _ hk
     simp only [getFlow_def] at hf
     rw [hf] at hg; cases hg
-    have := flowKey_eq_affKey hcl hsrc hkey.symm
-    exact this
+    exact flowKey_eq_affKey hkey.symm
   · cases hop
 
 def cex4 : Addr := { v6 := false, ip := [10, 0, 0, 1], port := 0 }
@@ -211,20 +210,19 @@ def cexCfg (wp : Bool) : Cfg :=
   { cluster := "dns", withPort := wp, responses := 0, requests := 0, frontTo := 400, backTo := 400,
     sendPP := false, ppEvery := false }
 /-- 4-tuple mode, source 10.0.0.1:0 is admitted and resolved; then the cluster
-    switches to source-ip affinity -/
+    switches to source-ip affinity (the witness of the former port-0 alias) -/
 def cexState : State :=
   run (State.new (cexCfg true) 4 64)
     [.client cex4 [1] 0, .resolved 0 "b0" cexB 0, .setCluster (cexCfg false)]
 
-/-- With source port 0 the excluded point really fails: a datagram from
-    10.0.0.1:9001 (affinity key "10.0.0.1" under the current mode) is forwarded
-    on the flow that was admitted in 4-tuple mode for 10.0.0.1:0 — a different
-    affinity key under a different mode; its replies go to port 0. -/
-theorem C19_sticky_affinity_counterexample :
-    Out.sendToBackend 0 cexB [2] ∈ (step cexState (.client cex4' [2] 1)).2 ∧
-    (getFlow cexState 0).map (fun f => (f.client, f.cfg.withPort)) = some (cex4, true) ∧
-    cexState.cluster.withPort = false ∧ cex4'.port ≠ 0 ∧
-    affKey cex4 true ≠ affKey cex4' false := by
+/-- Regression for the former port-0 FlowKey alias: a datagram from
+    10.0.0.1:9001 (affinity key "10.0.0.1" under the current mode) is no longer
+    forwarded on the flow admitted in 4-tuple mode for 10.0.0.1:0 — it gets a
+    flow of its own and the two are kept apart. -/
+example :
+    (step cexState (.client cex4' [2] 1)).2 =
+      [.metric .flowCreated, .selectBackend 1 "dns" (affKey cex4' false)] ∧
+    (getFlow cexState 0).map (fun f => (f.client, f.cfg.withPort)) = some (cex4, true) := by
   decide
 
 example : Reachable cexState := ⟨cexCfg true, 4, 64, _, rfl⟩
